@@ -56,6 +56,18 @@ VARIANTS = [
      "new": "                # ourselves.\n                self.session_manager.flow_done(flow)\n                flow.resume()\n"},
     {"name": "R1 event loop dies with the first failing event", "file": EVM, "expect": "C15.R1",
      "old": _RUN_TRY, "new": "            await self.pump_proxy_event()\n"},
+    {"name": "R1 session search on the hydration path indexes a filtered list", "file": CAPS, "expect": "C15.R1",
+     "old": "            for session in session_mgr.sessions:\n                if ser_cap_data.session_id == str(session.id):\n"
+            "                    cap_session = session\n",
+     "new": "            cap_session = [x for x in session_mgr.sessions if ser_cap_data.session_id == str(x.id)][0]\n"},
+    {"name": "R1 region search on the hydration path via next(filter(...))", "file": CAPS, "expect": "C15.R1",
+     "old": "            for region in cap_session.regions:\n                if ser_cap_data.region_addr == str(region.circuit_addr):\n"
+            "                    cap_region = region\n",
+     "new": "            cap_region = next(filter(lambda x: ser_cap_data.region_addr == str(x.circuit_addr), cap_session.regions))\n"},
+    {"name": "P R1 session search via next(..., None)", "file": CAPS, "expect": "silent",
+     "old": "            for session in session_mgr.sessions:\n                if ser_cap_data.session_id == str(session.id):\n"
+            "                    cap_session = session\n",
+     "new": "            cap_session = next((x for x in session_mgr.sessions if ser_cap_data.session_id == str(x.id)), None)\n"},
     {"name": "P R1 try/finally moved into a helper", "file": EVM, "expect": "silent",
      "old": "        flow = HippoHTTPFlow.from_state(flow_state, self.session_manager)\n        try:\n",
      "new": ("        flow = HippoHTTPFlow.from_state(flow_state, self.session_manager)\n"
@@ -171,6 +183,15 @@ VARIANTS = [
      "old": "        meta.setdefault(\"from_browser\", False)\n", "new": ""},
     {"name": "R4 request_injected overwritten on hydration", "file": FLOW, "expect": "C15.R4",
      "old": "        meta.setdefault(\"request_injected\", False)\n", "new": "        meta[\"request_injected\"] = False\n"},
+    {"name": "R4 bridge tagging overwrites resolved cap data", "file": PROXY, "expect": "C15.R4",
+     "old": "        elif not cap_data and not flow.metadata.get(\"from_browser\"):\n",
+     "new": "        elif not flow.metadata.get(\"from_browser\"):\n"},
+    {"name": "P R4 bridge tagging conjuncts swapped", "file": PROXY, "expect": "silent",
+     "old": "        elif not cap_data and not flow.metadata.get(\"from_browser\"):\n",
+     "new": "        elif not flow.metadata.get(\"from_browser\") and not cap_data:\n"},
+    {"name": "P R4 bridge tagging re-reads the key in the guard", "file": PROXY, "expect": "silent",
+     "old": "        elif not cap_data and not flow.metadata.get(\"from_browser\"):\n",
+     "new": "        elif not flow.metadata.get(\"cap_data_ser\") and not flow.metadata.get(\"from_browser\"):\n"},
     {"name": "P R4 positional construction", "file": CAPS, "expect": "silent",
      "old": "            cap_name=self.cap_name,\n            region_addr=", "new": "            self.cap_name,\n            region_addr="},
     {"name": "P R4 `not in` form of a default", "file": FLOW, "expect": "silent",
